@@ -164,12 +164,24 @@ theorem kl_mono {d e : ℕ} (M : Fin e → Fin d → ℝ) (hM : ColStochastic M)
 
 /-! ### Rényi entropy -/
 
-theorem renyiSpec_eq {d : ℕ} (α : ℝ) (p : Fin d → ℝ) :
+theorem renyiSpec_eq {d : ℕ} (α : ℝ) (p : Fin d → ℝ) (hp : ∀ i, 0 ≤ p i) :
     renyiSpec α (List.ofFn p) = Real.log (∑ i, p i ^ α) / (1 - α) := by
   unfold renyiSpec
-  rw [listSum_ofFn p (fun x => SpecOps.pow x α)]
-  show Real.log (∑ i, p i ^ α) / (1 + -α) = _
+  rw [listSum_ofFn p (fun x => SpecOps.pow (Analytic.max x 0) α)]
+  show Real.log (∑ i, (max (p i) 0) ^ α) / (1 + -α) = _
   rw [← sub_eq_add_neg]
+  congr 2
+  exact sum_congr rfl fun i _ => by rw [max_eq_left (hp i)]
+
+/-- the clip makes the value insensitive to round-off negative eigenvalues: they count as zero -/
+theorem renyiSpec_clip (α : ℝ) (evl : List ℝ) : renyiSpec α evl = renyiSpec α (evl.map fun x => max x 0) := by
+  unfold renyiSpec
+  rw [List.map_map]
+  congr 3
+  apply List.map_congr_left
+  intro x _
+  show (max x 0) ^ α = (max (max x 0) 0) ^ α
+  rw [max_eq_left (le_max_right x 0)]
 
 /-- `Σ p^α` between `1` and `d^(1-α)` for `α < 1`, between `d^(1-α)` and `1` for `α > 1` -/
 theorem sum_rpow_bounds_lt {d : ℕ} (hd : 0 < d) (α : ℝ) (h0 : 0 < α) (h1 : α < 1) (p : Fin d → ℝ) (hp : ∀ i, 0 ≤ p i)
